@@ -3,7 +3,7 @@
 # check's quick tier there and appends "name check CAUGHT|MISSED|NOAPPLY|HARNESS ..." to /var/tmp/mlab/mutants.log
 set -u
 cd "$(dirname "$0")/.."
-LAB=/var/tmp/mlab
+LAB="${LAB_DIR:-/var/tmp/mlab}"
 filter="${1:-}"
 grep -v '^#' tools/mutants.txt | while IFS='|' read -r name check file expr; do
   [ -n "$name" ] || continue
